@@ -371,6 +371,11 @@ func (s *Server) Start() {
 	go s.relayBlocksLoop()
 	go s.bQueue.Run()
 	go s.bFetcherQueue.Run()
+	if !s.config.NeoFSStateSyncExtensions {
+		// Blocks of the state synchronisation come from peers then, and nothing
+		// else runs this queue (stateSyncCallBack does it for NeoFS-based sync).
+		go s.bSyncQueue.Run()
+	}
 	if s.NeoFSBlockFetcherCfg.Enabled && !s.config.NeoFSStateSyncExtensions && !s.config.P2PStateExchangeExtensions {
 		if err := s.blockFetcher.Start(); err != nil {
 			s.log.Error("skipping NeoFS BlockFetcher", zap.Error(err))
